@@ -147,6 +147,8 @@ func loaderLoc(family, rel string) string {
 		return rel
 	case "/":
 		return "/" + rel
+	case ".":
+		return rel
 	}
 	return family + "/" + rel
 }
@@ -277,6 +279,11 @@ type harnessErr struct{ class, expected, got string }
 // and plain POSIX resolution of the joined string.  A file may be served only
 // if one of the readings names it AND it is inside the root.
 func (sb *sandbox) rflVerdict(cwd *node, L, altL, loc string, kernel bool) (verdict, *harnessErr) {
+	return sb.rflVerdictRoot(cwd, sb.rootN, L, altL, loc, kernel)
+}
+
+// rflVerdictRoot is rflVerdict for an arbitrary root directory of the layout.
+func (sb *sandbox) rflVerdictRoot(cwd, root *node, L, altL, loc string, kernel bool) (verdict, *harnessErr) {
 	var v verdict
 	var herr *harnessErr
 	for i, l := range []string{L, altL} {
@@ -288,7 +295,7 @@ func (sb *sandbox) rflVerdict(cwd *node, L, altL, loc string, kernel bool) (verd
 		lex := sb.m.walk(cwd, cl)
 		phys := sb.m.walk(cwd, raw)
 		for _, r := range []res{lex, phys} {
-			if r.kind == rFile && r.node.under(sb.rootN) {
+			if r.kind == rFile && r.node.under(root) {
 				v.add(r.node.id)
 			}
 			if r.kind == rFile || r.kind == rLoop {
@@ -296,8 +303,8 @@ func (sb *sandbox) rflVerdict(cwd *node, L, altL, loc string, kernel bool) (verd
 			}
 		}
 		if i == 0 {
-			v.desc = describe(lex, sb.rootN)
-			if p := describe(phys, sb.rootN); p != v.desc {
+			v.desc = describe(lex, root)
+			if p := describe(phys, root); p != v.desc {
 				v.desc += "|posix:" + p
 			}
 			if kernel {
@@ -727,6 +734,9 @@ func runKase(sb *sandbox, cwd *node, k kase) (kind, class, expected, got string,
 	if k.Part == "history" {
 		return replayHistory(sb, cwd, k)
 	}
+	if k.Part == "cwd" {
+		return runCwdKase(sb, cwd, k)
+	}
 	var ph *phaseCfg
 	phases := append(append([]phaseCfg(nil), rflPhases...), fsPhase)
 	for i := range phases {
@@ -960,7 +970,7 @@ func run(r *core.Run) {
 	d.precheck(info)
 
 	// development aid: C20_PARTS=rfl,fs,history restricts the run (reported as capped)
-	parts := map[string]bool{"rfl": true, "fs": true, "history": true}
+	parts := map[string]bool{"rfl": true, "fs": true, "history": true, "cwd": true}
 	if s := os.Getenv("C20_PARTS"); s != "" {
 		parts = map[string]bool{}
 		for _, p := range strings.Split(s, ",") {
@@ -1097,6 +1107,11 @@ func run(r *core.Run) {
 		d.runHistories(K, tot, info, &mu)
 	}
 
+	// ---- part four: the process working directory (and $PWD) as a dimension
+	if parts["cwd"] && !r.Expired() && !r.Saturated() {
+		d.runCwd(tot, info, &mu)
+	}
+
 	// outcome classes: counted locally (a shared counter per case would serialise
 	// the workers); each distinct class is registered once and the true counts
 	// are written to coverage.outcome_counts.
@@ -1188,6 +1203,18 @@ func replay(v core.Violation) (bool, string) {
 	cwd, err := sb.chdir(cwdRel)
 	if err != nil {
 		return false, err.Error()
+	}
+	if k.Part == "cwd" {
+		cfg := cwdCfgByID(k.Phase)
+		if cfg == nil {
+			return false, "unknown working-directory configuration " + k.Phase
+		}
+		restore, n, err := sb.enterCwd(cfg)
+		if err != nil {
+			return false, err.Error()
+		}
+		defer restore()
+		cwd = n
 	}
 	kind, class, expected, got, err := runKase(sb, cwd, k)
 	if err != nil {
